@@ -109,3 +109,19 @@ Example C03_ex_varint :
   build_bytes CVarInt (VInt 300) [] = Ok (VInt 300, [xac; x02]) /\
   parse_at CVarInt [] [xac; x82; x00; x07] 0 = Ok (VInt 300, 3%Z).
 Proof. split; vm_compute; reflexivity. Qed.
+
+(* Half precision, exhaustively: all 65536 patterns (proofs/FloatFacts.v). *)
+Require Import FloatFacts.
+Theorem C03_half_roundtrip : forall p, (p < 65536)%N -> is_nan binary16 p = false -> narrow binary16 (widen binary16 p) = Some p.
+Proof. exact half_roundtrip. Qed.
+Print Assumptions C03_half_roundtrip.
+
+Theorem C03_half_nan_canonical : forall p, (p < 65536)%N -> is_nan binary16 p = true ->
+  narrow binary16 (widen binary16 p) = Some (quiet_nan binary16 (f_sign binary16 p)).
+Proof. exact half_nan_canonical. Qed.
+Print Assumptions C03_half_nan_canonical.
+
+Theorem C03_half_widen_injective : forall p q, (p < 65536)%N -> (q < 65536)%N -> is_nan binary16 p = false -> is_nan binary16 q = false ->
+  widen binary16 p = widen binary16 q -> p = q.
+Proof. exact half_widen_injective. Qed.
+Print Assumptions C03_half_widen_injective.
